@@ -8,7 +8,7 @@ for d in seeded/*/; do
   props=$(python3 -c "
 import json,sys
 m=json.load(open('$d/meta.json'))
-print(' '.join(m.get('caught_by') or [m['property']]))")
+print(' '.join(x for x in (m.get('caught_by') or [m['property']]) if len(x) == 3 and x[0] == 'C'))")
   res=""
   for p in $props; do
     out=$(./evalseed.sh $d/patch.diff $p $B 2>&1)
